@@ -8,10 +8,10 @@ from mirsmt.sym import Unsupported
 _progs = {}
 
 
-def program(crates, hooks=True):
-    key = (tuple(crates), hooks)
+def program(crates, hooks=True, harness=False):
+    key = (tuple(crates), hooks) if not harness else (tuple(crates), hooks, "harness")
     if key not in _progs:
-        _progs[key] = prog.Program(list(crates), hooks=hooks, redump=True)
+        _progs[key] = prog.Program(list(crates), hooks=hooks, redump=True, harness=harness)
     return _progs[key]
 
 
